@@ -20,7 +20,7 @@ from dulwich.client import parse_rsync_url
 
 from .. import urlutils
 from .._git_rs import bzr_url_to_git_url  # noqa: F401
-from .refs import ref_to_branch_name
+from .refs import branch_name_to_ref, ref_to_branch_name
 
 KNOWN_GIT_SCHEMES = ["git+ssh", "git", "http", "https", "ftp", "ssh"]
 SCHEME_REPLACEMENT = {
@@ -96,7 +96,12 @@ def git_url_to_bzr_url(location, branch=None, ref=None):
         except ValueError:
             branch = None
         else:
-            ref = None
+            if branch_name_to_ref(branch) == ref:
+                ref = None
+            else:
+                # e.g. refs/heads/refs/x: the name "refs/x" would denote the
+                # ref refs/x, so keep the ref itself
+                branch = None
     if ref or branch:
         params = {}
         if ref:
